@@ -27,7 +27,7 @@ Definition stale (s : state) : nat :=
 
 Definition measure (s : state) : nat :=
   16 * length (q s) + (if reset s then 8 else 0) + 8 * stale s + rank (loop s) + exiting s +
-  crank (close s).
+  crank (close s) + cwait s.
 
 Lemma is_head_peek r ql : q_peek ql = Some r -> is_head r ql = true.
 Proof. unfold is_head. intros ->. apply item_eqb_refl. Qed.
@@ -35,11 +35,12 @@ Proof. unfold is_head. intros ->. apply item_eqb_refl. Qed.
 Lemma measure_decreases v s e s' :
   internal e = true -> step v s e = Some s' -> (measure s' < measure s)%nat.
 Proof.
-  destruct s as [q0 run0 rst0 stp0 sch0 clk0 lp0 ex0 cl0 exd0].
+  destruct s as [q0 run0 rst0 stp0 sch0 clk0 lp0 ex0 cl0 exd0 cw0 cr0].
   intros Hi Hs. destruct e; cbn in Hi; try discriminate Hi; cbn in Hs.
   - (* EvCloseStop *) open_step Hs. unfold measure, stale; cbn. lia.
   - (* EvCloseToken *) open_step Hs. unfold measure, stale; cbn. lia.
   - (* EvCloseRet *) open_step Hs. unfold measure, stale; cbn. lia.
+  - (* EvClose2Ret *) open_step Hs. unfold measure, stale; cbn. lia.
   - (* EvLoop *)
     unfold loop_step in Hs; cbn in Hs.
     destruct lp0; destruct c; try discriminate Hs.
@@ -88,14 +89,14 @@ Definition at_rest (v : variant) (s : state) : Prop :=
 Lemma rest_shape v t evs s :
   run v (init_at t) evs = Some s -> at_rest v s ->
   (* a Close that was called has returned, no goroutine is on its way out *)
-  (close s = CNone \/ close s = CReturned) /\ exiting s = 0%nat /\
+  (close s = CNone \/ close s = CReturned) /\ exiting s = 0%nat /\ cwait s = 0%nat /\
   (* the loop does not exist, or sleeps on a timer armed for the current head *)
   ((loop s = LNone /\ (v = Fixed -> stopch s = false -> q s = [])) \/
    (exists r dl, loop s = LWaiting r dl /\ q_peek (q s) = Some r /\ reset s = false /\
                  stopch s = false /\ clock s < dl /\ idue r <= dl)).
 Proof.
   intros Hrun Hrest.
-  destruct (ginv_run _ _ _ _ Hrun) as [HS [_ [HT HR]]].
+  destruct (ginv_run _ _ _ _ Hrun) as [HS [_ [HT [HR HW]]]].
   pose proof (Hrest (EvLoop ChStep 0) eq_refl) as R1.
   pose proof (Hrest (EvLoop ChTimer 0) eq_refl) as R2.
   pose proof (Hrest (EvLoop ChReset 0) eq_refl) as R3.
@@ -105,17 +106,19 @@ Proof.
   pose proof (Hrest EvCloseStop eq_refl) as R7.
   pose proof (Hrest EvCloseToken eq_refl) as R8.
   pose proof (Hrest EvCloseRet eq_refl) as R9.
+  pose proof (Hrest EvClose2Ret eq_refl) as R10.
   clear Hrest Hrun.
-  destruct s as [q0 run0 rst0 stp0 sch0 clk0 lp0 ex0 cl0 exd0].
-  unfold sinv, tinv, rinv in *. cbn in *.
+  destruct s as [q0 run0 rst0 stp0 sch0 clk0 lp0 ex0 cl0 exd0 cw0 cr0].
+  unfold sinv, tinv, rinv, winv in *. cbn in *.
   assert (Hex : ex0 = 0%nat) by (destruct ex0; [reflexivity | discriminate R6]).
   subst ex0.
   destruct lp0; cbn in *; try discriminate R1; try discriminate R5.
   - (* LNone *)
     destruct HS as [HA [HB [_ [HD _]]]].
-    split; [|split; [reflexivity|]].
+    split; [|split; [reflexivity|split]].
     + destruct cl0; auto; try discriminate R7; try discriminate R9.
       rewrite HA in R8. discriminate R8.
+    + destruct cw0; [reflexivity | discriminate R10].
     + left. split; [reflexivity|]. intros -> Hst.
       destruct cl0; try (destruct HB; congruence).
       rewrite HA in HD. destruct HD; congruence.
@@ -127,8 +130,10 @@ Proof.
     destruct sch0; [discriminate R4|]. destruct rst0; [discriminate R3|].
     destruct (dl <=? clk0) eqn:Edl; [discriminate R2|]. apply Z.leb_gt in Edl.
     destruct HS as [[HA1 HA2] [HB _]].
-    split; [|split; [reflexivity|]].
-    + destruct cl0; auto; try discriminate R7; try contradiction; destruct HB; discriminate.
+    assert (Hcl : cl0 = CNone).
+    { destruct cl0; auto; try discriminate R7; try contradiction; destruct HB; discriminate. }
+    split; [left; exact Hcl|split; [reflexivity|split]].
+    + subst cl0. destruct HB as [HB _]. destruct HW as [HW|HW]; [exact HW | congruence].
     + right. exists r, dl. destruct HR as [HR|HR]; [|discriminate]. auto 10.
   - (* LExecuting *) destruct (q_pop 0 q0) as [[h rest]|]; [destruct (item_eqb h r)|]; discriminate R1.
 Qed.
